@@ -26,7 +26,7 @@ UMNN_POLICIES = ["fresh", "randn0.3", "randn1"]
 
 
 def gen_cases(tier, seed):
-    nrand = 5 if tier == "quick" else 30
+    nrand = 5 if tier == "quick" else 100
     pols = ["fresh", "randn1", "zero", "extreme"] if tier == "quick" else zoo.POLICIES
     cases = []
     for fam in zoo.ALL_FAMS:
@@ -51,7 +51,7 @@ def gen_cases(tier, seed):
                       "world": "f64", "batch": 3, "cost": 2, "probe": "umnn_uncond"})
     # direct spline functions with boxes
     boxes = splineref.BOXES
-    nb = 4 if tier == "quick" else 16
+    nb = 4 if tier == "quick" else 48
     for fam in ("linear", "quadratic", "cubic", "rq"):
         for bi, bx in enumerate(boxes):
             for rep in range(nb):
